@@ -56,7 +56,7 @@ def main(tier):
         rf = os.path.join(d, name + '.json')
         rc, out = V.run([hs, 'recs', os.path.join(d, name + '.txt'), rf, str(chunk)], timeout=1800)
         if rc != 0:
-            raise V.Broken('h_sp failed: ' + out[-2000:])
+            V.harness_exit('h_sp:' + name, rc, out)
         r = V.tlc(SPT, cfg(d, 'recs', 'Spec', 1, 0), env={'SPRECS': rf}, timeout=3000, cont=True, mem='24g', workers=8 if name.startswith('big') else None)
         ev.add_tlc('records %s' % name, r)
         recs = json.load(open(rf))['recs']
